@@ -156,6 +156,9 @@ Definition cm_deserialize (mx sh : N) (bs : list N) : outcome cm :=
                                 + (entries + 1) * zN GenCountMin.LONG_SIZE_BYTES) then Err else
     obind (read_cells mx (S (N.to_nat entries)) (skipn 16 bs)) (fun cells =>
     match cells with
-    | t :: cs => Ok (mkCm nh nb mx sh t cs)
+    | t :: cs =>
+        (* every counter is bounded by the total weight (a counter above it would let a later
+           update or merge overflow the type although the total still fits): invalid data otherwise *)
+        if forallb (fun c => c <=? t) cs then Ok (mkCm nh nb mx sh t cs) else Err
     | [] => Err
     end)).
